@@ -62,7 +62,7 @@ PROPS = {
         "assumptions": COMMON_ASSUME + STR_STUBS[:3],
     },
     "C05": {
-        "groups": [{"name": "json", "tags": "verif", "run": "^VH_C05_"}],
+        "groups": [{"name": "json", "tags": "verif", "run": "^VH_C05_|^VH_C03_discard_nested$"}],
         "level": "model_checking", "engine_only_msgs": "never writes into|writes only into",
         "bounds": {
             "lemmas": "L1 With, L2 Output, L3 Hook, L4 write-set of every derivation/logging call, L5 UpdateContext after With, L7 pooled events (5 pool preludes x 7 consumers of GetCtx): each one step from an arbitrary parent (context nil / '{' with 0,8,16 spare bytes / fields with spare capacity; hooks with spare capacity; level symbolic; sampler, stack flag, Go context present or not). Backing-array identity and write-sets are tracked by the engine's memory model. L6 (every Context method leaves the receiver's bytes untouched) is asserted by the generated C01 Context harnesses.",
@@ -85,7 +85,7 @@ PROPS = {
                     "quick": {"params": "strlen=2,members=2"},
                     "thorough": {"params": "strlen=3,members=3", "harness-timeout": 3000, "max-paths": 5000000}},
                    {"name": "wiring", "tags": "verif,binary_log", "run": "^VH_C01_marshal_func$", "flags": {"gen": True}}],
-        "cross_solver": {"run": "^VH_C08_(ints|floats|simple|time)$"},
+        "cross_solver": {"run": "^VH_C08_(ints|floats|simple|time)$", "solvers": ["cvc5"], "group": "cbor"},
         "callsite_audit": "harness/c08_callsites.txt",
         "level": "model_checking",
         "bounds": {
@@ -126,26 +126,26 @@ PROPS = {
         "assumptions": COMMON_ASSUME + STR_STUBS[:2] + STR_STUBS[3:6],
     },
     "C10": {
-        "groups": [{"name": "diode", "tags": "verif", "run": "^VH_C10_((waiter|poller)_(1x2|2x1)_s[12]_(fresh|steady)_(close|quiesce)|stuck_writer_.*|bigbuf_.*)$", "flags": {"harness-timeout": 200, "max-paths": 150000, "witnesses": 1},
-                    "quick": {"preempt": 2, "run": "^VH_C10_((poller_(1x2|2x1|1x3)_s[12]_fresh|waiter_1x2_s[12]_fresh|poller_1x2_s[12]_steady)_(close|quiesce)|waiter_2x1_s[12]_fresh_quiesce|stuck_writer_poller|bigbuf_(poller|waiter))$"}, "thorough": {"preempt": 3, "harness-timeout": 900, "max-paths": 5000000}}],
-        "level": "model_checking", "msg_filter": "^C10", "harness_msg_filter": {"^VH_C10_(stuck_writer|bigbuf)": "."}, "engine_only_kinds": ["assert", "deadlock", "panic"], "witness_replays": {"quick": 1, "thorough": 1},
+        "groups": [{"name": "diode", "tags": "verif", "run": "^VH_C10_((waiter|poller)_(1x2|2x1)_s[12]_(fresh|steady)_(close|quiesce)|stuck_writer_.*|bigbuf_.*|failsink_.*)$", "flags": {"spin-limit": 200000, "harness-timeout": 200, "max-paths": 150000, "witnesses": 1},
+                    "quick": {"preempt": 2, "run": "^VH_C10_((poller_(1x2|2x1|1x3)_s[12]_fresh|waiter_1x2_s[12]_fresh|poller_1x2_s[12]_steady)_(close|quiesce)|waiter_2x1_s[12]_fresh_quiesce|stuck_writer_poller|bigbuf_(poller|waiter)|failsink_poller)$"}, "thorough": {"preempt": 3, "harness-timeout": 900, "max-paths": 5000000}}],
+        "level": "model_checking", "msg_filter": "^C10", "harness_msg_filter": {"^VH_C10_(stuck_writer|bigbuf)": "."}, "engine_only_kinds": ["assert", "deadlock", "panic", "livelock"], "witness_replays": {"quick": 1, "thorough": 1},
         "bounds": {"quick": "real diode.Writer in waiter and poller mode; (producers x writes) in {1x2, 2x1} x ring size {1,2} x start {fresh = as NewManyToOne leaves it (first lap), steady = arbitrary symbolic position >= size and < 2^62}; both phases (quiesce / Close); preemption bound 2 with sleep-set reduction; a wrapped writer that blocks forever with 2 producers x 2 writes",
                    "thorough": "adds 1x3, 2x2 and ring size 3, preemption bound 3",
                    "assertions": "every delivered buffer equals the argument of exactly one Write, none twice, per-producer order, alerts positive and their sum <= ring positions claimed, Write returns 2,nil; producers finish although the wrapped writer never returns"},
         "assumptions": COMMON_ASSUME + ["threads are interleaved at visible operations only (sync/atomic, Mutex, Cond, channel, WaitGroup, time.Sleep, go); code between two visible operations of a thread is assumed not to race with other threads", "package context's own synchronisation is trusted: its operations are atomic steps", "sync.Pool (bufPool) is a LIFO free list; time.Sleep = 'time passes when nothing else can run'", "schedule counterexamples are reported from the engine's exploration (kinds assert/deadlock are engine-only for these properties: the native replay cannot force a schedule without instrumenting the diode sources)", "fewer than 2^64 ring positions are claimed in the life of a diode"],
     },
     "C11": {
-        "groups": [{"name": "diode", "tags": "verif", "run": "^VH_C10_((waiter|poller)_(1x1|1x2|1x3|2x1)_s[12]_(fresh|steady)_close|failsink_(waiter|poller))$", "flags": {"harness-timeout": 200, "max-paths": 150000, "witnesses": 1},
+        "groups": [{"name": "diode", "tags": "verif", "run": "^VH_C10_((waiter|poller)_(1x1|1x2|1x3|2x1)_s[12]_(fresh|steady)_close|failsink_(waiter|poller))$", "flags": {"spin-limit": 200000, "harness-timeout": 200, "max-paths": 150000, "witnesses": 1},
                     "quick": {"preempt": 2, "run": "^VH_C10_(((poller_(1x1|1x2|1x3|2x1)_s[12]_fresh)|(poller_(1x1|1x2)_s[12]_steady)|(waiter_(1x1|1x2)_s[12]_fresh))_close|failsink_(waiter|poller))$"}, "thorough": {"preempt": 3, "harness-timeout": 900, "max-paths": 5000000}}],
-        "level": "model_checking", "msg_filter": "^C11", "engine_only_kinds": ["assert", "deadlock", "panic"], "witness_replays": {"quick": 1, "thorough": 1},
+        "level": "model_checking", "msg_filter": "^C11", "engine_only_kinds": ["assert", "deadlock", "panic", "livelock"], "witness_replays": {"quick": 1, "thorough": 1},
         "bounds": {"quick": "Close phase: after all Writes returned and Close returned, delivered + reported >= written (== when no producer retried), nothing dropped while fewer messages than the ring size are outstanding; configurations 1x1, 1x2, 1x3, 2x1 x size {1,2} x {fresh, steady(symbolic)}, waiter and poller; preemption bound 2 + sleep sets",
                    "thorough": "adds 2x2, size 3, preemption bound 3"},
         "assumptions": COMMON_ASSUME + ["threads are interleaved at visible operations only (sync/atomic, Mutex, Cond, channel, WaitGroup, time.Sleep, go); code between two visible operations of a thread is assumed not to race with other threads", "package context's own synchronisation is trusted: its operations are atomic steps", "sync.Pool (bufPool) is a LIFO free list; time.Sleep = 'time passes when nothing else can run'", "schedule counterexamples are reported from the engine's exploration (kinds assert/deadlock are engine-only for these properties: the native replay cannot force a schedule without instrumenting the diode sources)", "fewer than 2^64 ring positions are claimed in the life of a diode"],
     },
     "C12": {
-        "groups": [{"name": "diode", "tags": "verif", "run": "^VH_C10_((waiter|poller)_(1x1|1x2|1x3|2x1)_s[12]_(fresh|steady)_quiesce|(waiter|poller)_(1x1|1x2|2x1)_s[12]_fresh_close|reenter_(waiter|poller))$", "flags": {"harness-timeout": 200, "max-paths": 150000, "witnesses": 1},
-                    "quick": {"preempt": 2, "run": "^VH_C10_(((poller_(1x1|1x2|1x3|2x1)_s[12]_fresh)|(poller_(1x1|1x2)_s[12]_steady)|(waiter_(1x1|1x2|2x1)_s[12]_fresh))_quiesce|(waiter|poller)_(1x1|1x2)_s1_fresh_close|reenter_(waiter|poller))$"}, "thorough": {"preempt": 3, "harness-timeout": 900, "max-paths": 5000000}}],
-        "level": "model_checking", "msg_filter": "^C12|^deadlock", "engine_only_kinds": ["assert", "deadlock", "panic"], "witness_replays": {"quick": 1, "thorough": 1},
+        "groups": [{"name": "diode", "tags": "verif", "run": "^VH_C10_((waiter|poller)_(1x1|1x2|1x3|2x1)_s[12]_(fresh|steady)_quiesce|(waiter|poller)_(1x1|1x2|2x1)_s[12]_fresh_close|reenter_(waiter|poller)|failsink_(waiter|poller))$", "flags": {"spin-limit": 200000, "harness-timeout": 200, "max-paths": 150000, "witnesses": 1},
+                    "quick": {"preempt": 2, "run": "^VH_C10_(((poller_(1x1|1x2|1x3|2x1)_s[12]_fresh)|(poller_(1x1|1x2)_s[12]_steady)|(waiter_(1x1|1x2|2x1)_s[12]_fresh))_quiesce|(waiter|poller)_(1x1|1x2)_s1_fresh_close|reenter_(waiter|poller)|failsink_poller)$"}, "thorough": {"preempt": 3, "harness-timeout": 900, "max-paths": 5000000}}],
+        "level": "model_checking", "msg_filter": "^C12|^deadlock|^livelock", "engine_only_kinds": ["assert", "deadlock", "panic", "livelock"], "witness_replays": {"quick": 1, "thorough": 1},
         "bounds": {"quick": "quiesce phase: after all Writes returned, with NO later Write or Close, the system runs until no thread can move (the scheduler knows); every message must have been delivered or reported; Close must return in the Close phase (a global deadlock is a violation); configurations as C11",
                    "thorough": "adds 2x2, size 3, preemption bound 3"},
         "assumptions": COMMON_ASSUME + ["threads are interleaved at visible operations only (sync/atomic, Mutex, Cond, channel, WaitGroup, time.Sleep, go); code between two visible operations of a thread is assumed not to race with other threads", "package context's own synchronisation is trusted: its operations are atomic steps", "sync.Pool (bufPool) is a LIFO free list; time.Sleep = 'time passes when nothing else can run'", "schedule counterexamples are reported from the engine's exploration (kinds assert/deadlock are engine-only for these properties: the native replay cannot force a schedule without instrumenting the diode sources)", "fewer than 2^64 ring positions are claimed in the life of a diode"],
